@@ -33,7 +33,12 @@ def load_gitignore(directory: Path) -> pathspec.PathSpec | None:
     gitignore = directory / ".gitignore"
     if not gitignore.is_file():
         return None
-    return _read_ignore_file(gitignore)
+    spec = _read_ignore_file(gitignore)
+    if spec is None:
+        return None
+    # `GitIgnoreSpec` follows git's own precedence rules more closely than the generic
+    # `PathSpec` (e.g. a negated directory pattern does not re-include the files inside).
+    return pathspec.GitIgnoreSpec.from_lines([p.pattern for p in spec.patterns if p.pattern])
 
 
 def load_tool_ignore(tool_name: str, start_dir: Path) -> pathspec.PathSpec | None:
